@@ -384,6 +384,15 @@ theorem C19_group_node_links_each_member (q : List Char → List Char) (g : RGro
 #guard ((Dig.DotSyntax.lexDot (dotText { types := [(10, "*pool.T0")], ctors := [("f", "p")] }
     { ctors := [{ id := 1, results := [{ ty := 10, name := "a\"b", group := "" }] }] }).toList).bind Dig.DotSyntax.parseDot).isSome
 
+-- the grammar is not vacuous (*tests*): an unclosed string, an unclosed label, a missing brace, a dangling arrow and an
+-- attribute without a value are rejected
+#guard (Dig.DotSyntax.lexDot "digraph { \"a [color=red]; }".toList).isNone
+#guard (Dig.DotSyntax.lexDot "digraph { a [label=<b<i>]; }".toList).isNone
+#guard ((Dig.DotSyntax.lexDot "digraph { a -> b; ".toList).bind Dig.DotSyntax.parseDot).isNone
+#guard ((Dig.DotSyntax.lexDot "digraph { a -> ; }".toList).bind Dig.DotSyntax.parseDot).isNone
+#guard ((Dig.DotSyntax.lexDot "digraph { a [color]; }".toList).bind Dig.DotSyntax.parseDot).isNone
+#guard ((Dig.DotSyntax.lexDot "digraph { subgraph cluster_0 { a; } b -> a [style=dashed]; }".toList).bind Dig.DotSyntax.parseDot).isSome
+
 #print axioms C19_result_label_is_one_html_string
 #print axioms C19_text_lexes_into_its_tokens
 #print axioms C19_text_is_valid_dot
